@@ -254,21 +254,26 @@ def run_group(src, crate, geom, extra, harnesses, timeout_s, jobs, tdir, logdir)
     return data, wall, txt
 
 
-def classify(check, h, hdir):
+def classify(check, h, hdir, prop=None):
     """Return (property-or-None, kind). kind in tagged|cover|mem|unwind|panic|harness|internal."""
     d = check.get("description", "")
     cat = check.get("category", "")
     loc = (check.get("location") or {}).get("file", "") or ""
-    m = re.match(r"\[(C\d+)\]", d)
+    m = re.match(r"\[(C\d+(?:,C\d+)*)\]", d)
+    tag = None
+    if m:
+        # an obligation may serve several properties: "[C01,C05] ..." counts for the one being checked
+        tags = m.group(1).split(",")
+        tag = prop if prop in tags else tags[0]
     if cat == "cover":
-        return (m.group(1) if m else None, "cover")
+        return (tag, "cover")
     if d.startswith("same object violation"):
         # CBMC's C rule for relational operators on pointers into different objects. Rust defines
         # the comparison of raw pointers by address (the repository compares metadata ranges that
         # way): not undefined behaviour, not reported.
         return (None, "ignored")
     if m:
-        return (m.group(1), "tagged")
+        return (tag, "tagged")
     if cat == "unwind" or "unwinding assertion" in d:
         return (h.unwind if h.unwind != "-" else None, "unwind")
     if cat in ("unsupported_construct", "internal") or "is not currently supported by Kani" in d:
@@ -550,7 +555,7 @@ def analyse(r, h, geom, hdir, prop, findings, stats):
         rec["problems"].append("no checks reported (timeout, crash or out of memory)")
     for c in checks:
         st = c.get("status", "")
-        p, kind = classify(c, h, hdir)
+        p, kind = classify(c, h, hdir, prop)
         if kind == "cover":
             if st.upper() in ("SATISFIED", "COVERED"):
                 rec["covers_ok"].append(c["description"])
